@@ -63,6 +63,10 @@ def gen_history(rng):
     else:
         logz = rng.standard_normal(T) * 10 ** rng.uniform(0, 5)
     target = float(rng.choice([0.0, 1.0, rng.random(), betas[rng.integers(T)]]))
+    if rng.random() < 0.12:
+        # requested temperatures next to, but not at, the end points (a temperature is never "close enough" to 0 or 1)
+        eps_t = float(rng.choice([1e-5, 3e-6, 1e-6, 1e-7, 1e-9, 2.0 ** -30, 1e-12, 2.0 ** -52]))
+        target = eps_t if rng.random() < 0.35 else 1.0 - eps_t
     # how the numbers are handed to the public API: Python / numpy integers for temperatures that are exactly 0 or 1
     # (a prior batch followed by posterior batches), 0-d arrays, lists, integer logZ.  The stored values are the same reals.
     vtype = "float"
